@@ -16,6 +16,17 @@
  *   - returns ANY result the documented API allows (-1 with any errno 1..XV_RELAY_ERRNO_MAX included),
  *   - asserts that the socket is one of the two legs, is not closed, and that the relay's termination callback has not
  *     run yet (xv_terminated): "no use of a relay after its termination callback".
+ * MESSAGE CONTENT IS ABSTRACT.  The source leg delivers a fixed arbitrary byte stream S; the ghost offsets say which part of
+ * S is where:  xv_rx_off  bytes of S delivered by xcm_receive so far,  xv_tx_off  bytes of S accepted by xcm_send so far,
+ * and the xfwd's hold buffer (ghost address xv_hold_buf) holds S[xv_hold_off, xv_hold_off + xv_hold_len) at its start.
+ * xcm_receive / memmove do NOT store into the 64 KiB array; they update these three descriptors the way the real calls
+ * move bytes (receive n bytes: hold = S[rx_off, rx_off+n); memmove(buf, buf+k, n): hold = S[hold_off+k, hold_off+k+n)).
+ * This is exact as long as nobody else writes the buffer -- which is an obligation: the array is in NO assigns clause of
+ * the code under proof, so any store of xrelay.c into data[] fails the frame check.  (xrelay.c never reads a byte of
+ * data[] either; it only passes the buffer on.)  "Unmodified, in order, exactly once" then reads: what xcm_send is offered
+ * starts at stream offset xv_tx_off -- the first byte not yet forwarded -- and rx_off - tx_off bytes are held.
+ * (Byte-level tracking at a ghost index was tried first: any access at a symbolic index into a 64 KiB array embedded in
+ * a struct is a 64K-way multiplexer for CBMC, every array version 0.5M variables; xfwd_send did not finish in 10 min.)
  * libevent: event_assign/event_add/event_del keep the real `struct event` fields a caller may look at (ev_fd, ev_events,
  * callback, argument, EVLIST_INIT/EVLIST_INSERTED in ev_flags) and the ghost counter xv_ev_pending (events inserted).
  */
@@ -37,9 +48,13 @@ char xv_sock_obj[2];                                  /* two distinct addresses;
 struct xv_leg { _Bool blocking; _Bool closed; _Bool pending_out; int cond; int fd; };
 struct xv_leg xv_legs[2];
 
-/* ghost constant (set by the harness, never assigned afterwards): the hold buffer of the xfwd under proof.  The stubs look
- * at message bytes through this TYPED pointer only; a call with any other buffer is a failed obligation (hold-one). */
-char (*xv_own_data)[XV_RELAY_DATA_MAX];
+/* ghost constant (set by the harness, never assigned afterwards): address of the hold buffer of the xfwd under proof; an
+ * xcm_receive / xcm_send / memmove with any other buffer is a failed obligation (hold-one) */
+void *xv_hold_buf;
+long xv_hold_off;         /* stream offset of the byte at the start of the hold buffer */
+long xv_hold_len;         /* number of valid stream bytes at the start of the hold buffer */
+long xv_snd_off;          /* stream offset of the first byte the last xcm_send was offered */
+int xv_mm_calls; size_t xv_mm_n;   /* memmove calls, length of the last one */
 
 _Bool xv_bytestream;      /* ghost constant (never assigned): service type of BOTH legs (rserver pairs equal types only) */
 int xv_src;               /* ghost constant (never assigned): index of the source leg of the xfwd under proof */
@@ -48,9 +63,7 @@ _Bool xv_cb_frees;        /* ghost constant: the termination callback destroys (
 
 /* last-call records */
 int xv_rcv_calls; struct xcm_socket *xv_rcv_conn; void *xv_rcv_buf; size_t xv_rcv_cap; int xv_rcv_ret; int xv_rcv_errno;
-char xv_rcv_c;            /* byte xv_j of what xcm_receive stored (xv_j < ret) */
 int xv_snd_calls; struct xcm_socket *xv_snd_conn; const void *xv_snd_buf; size_t xv_snd_len; int xv_snd_ret; int xv_snd_errno;
-char xv_snd_c;            /* byte xv_j of the buffer as xcm_send saw it (xv_j < len) */
 int xv_fin_calls; struct xcm_socket *xv_fin_conn; int xv_fin_ret; int xv_fin_errno;
 int xv_aw_calls;          /* xcm_await calls */
 int xv_sb_calls;          /* xcm_set_blocking calls */
@@ -71,11 +84,12 @@ char nondet_char(void);
 static inline void xv_relay_havoc(void)
 {
     xv_legs[0] = nondet_xv_leg(); xv_legs[1] = nondet_xv_leg();
+    xv_hold_off = nondet_long(); xv_hold_len = nondet_long(); xv_snd_off = nondet_long(); xv_mm_calls = nondet_int(); xv_mm_n = nondet_size_t();
     xv_bytestream = nondet_bool(); xv_src = nondet_int(); xv_terminated = nondet_bool(); xv_cb_frees = nondet_bool();
     xv_rcv_calls = nondet_int(); xv_rcv_conn = nondet_vptr(); xv_rcv_buf = nondet_vptr(); xv_rcv_cap = nondet_size_t();
-    xv_rcv_ret = nondet_int(); xv_rcv_errno = nondet_int(); xv_rcv_c = nondet_char();
+    xv_rcv_ret = nondet_int(); xv_rcv_errno = nondet_int();
     xv_snd_calls = nondet_int(); xv_snd_conn = nondet_vptr(); xv_snd_buf = nondet_vptr(); xv_snd_len = nondet_size_t();
-    xv_snd_ret = nondet_int(); xv_snd_errno = nondet_int(); xv_snd_c = nondet_char();
+    xv_snd_ret = nondet_int(); xv_snd_errno = nondet_int();
     xv_fin_calls = nondet_int(); xv_fin_conn = nondet_vptr(); xv_fin_ret = nondet_int(); xv_fin_errno = nondet_int();
     xv_aw_calls = nondet_int(); xv_sb_calls = nondet_int(); xv_close_calls = nondet_int(); xv_close_unflushed = nondet_bool();
     xv_ev_pending = nondet_int(); xv_ev_add_calls = nondet_int(); xv_ev_del_calls = nondet_int(); xv_ev_assign_calls = nondet_int();
@@ -88,7 +102,7 @@ static inline void xv_relay_havoc(void)
 #define XV_RCNT_OK(c) ((c) >= 0 && (c) < XV_RELAY_CALLS_MAX)
 #define XV_RELAY_GHOST_RANGE (XV_RCNT_OK(xv_rcv_calls) && XV_RCNT_OK(xv_snd_calls) && XV_RCNT_OK(xv_fin_calls) && XV_RCNT_OK(xv_aw_calls) && \
                               XV_RCNT_OK(xv_sb_calls) && XV_RCNT_OK(xv_close_calls) && XV_RCNT_OK(xv_ev_pending) && XV_RCNT_OK(xv_ev_add_calls) && \
-                              XV_RCNT_OK(xv_ev_del_calls) && XV_RCNT_OK(xv_ev_assign_calls) && XV_RCNT_OK(xv_fcb_calls) && XV_RCNT_OK(xv_rcb_calls))
+                              XV_RCNT_OK(xv_ev_del_calls) && XV_RCNT_OK(xv_ev_assign_calls) && XV_RCNT_OK(xv_fcb_calls) && XV_RCNT_OK(xv_rcb_calls) && XV_RCNT_OK(xv_mm_calls))
 
 static int xv_relay_any_errno(void)
 {
@@ -110,19 +124,15 @@ static int xv_leg_use(struct xcm_socket *s)
 
 /* ---- TRUSTED(libxcm public API, include/xcm.h) ------------------------------------------------------------------- */
 
-/* xcm_receive: -1 with any errno (EAGAIN, ECONNRESET, ETIMEDOUT, ...), 0 = the peer has closed, or n in 1..capacity
- * ARBITRARY bytes stored at buf */
+/* xcm_receive: -1 with any errno (EAGAIN, ECONNRESET, ETIMEDOUT, ...), 0 = the peer has closed, or n in 1..capacity:
+ * the next n bytes of the stream are now at buf (abstractly, see above) */
 int xcm_receive(struct xcm_socket *__restrict conn_socket, void *__restrict buf, size_t capacity)
 {
     int i = xv_leg_use(conn_socket);
     __CPROVER_assert(!xv_legs[i].blocking, "xcm_receive on a non-blocking socket (the relay must never sleep in XCM)");
     __CPROVER_assert(capacity == 0 || __CPROVER_w_ok(buf, capacity), "xcm_receive buffer writeable");
-    __CPROVER_assert(buf == (void *)*xv_own_data && capacity <= XV_RELAY_DATA_MAX, "C20 xcm_receive into the xfwd's own buffer");
-    __CPROVER_assume(buf == (void *)*xv_own_data && capacity <= XV_RELAY_DATA_MAX);
-    xv_rcv_calls++; xv_rcv_conn = conn_socket; xv_rcv_buf = buf; xv_rcv_cap = capacity; xv_rcv_c = 0;
-    /* over-approximation: whatever the outcome, ALL of the offered buffer is overwritten with arbitrary bytes (the real
-     * call stores n bytes and leaves the rest alone; one constant-size havoc before the case split keeps the formula small) */
-    if (capacity > 0) __CPROVER_havoc_slice(buf, capacity);
+    __CPROVER_assert(buf == xv_hold_buf, "C20 xcm_receive into the xfwd's own hold buffer");
+    xv_rcv_calls++; xv_rcv_conn = conn_socket; xv_rcv_buf = buf; xv_rcv_cap = capacity;
     if (nondet_bool()) {
         xv_errno = xv_relay_any_errno();
         xv_rcv_errno = xv_errno; xv_rcv_ret = -1;
@@ -130,22 +140,25 @@ int xcm_receive(struct xcm_socket *__restrict conn_socket, void *__restrict buf,
     }
     size_t n = nondet_size_t();
     __CPROVER_assume(n <= capacity && n <= 0x7fffffffUL);
-    if (xv_j >= 0 && (size_t)xv_j < n) xv_rcv_c = (*xv_own_data)[xv_j];
+    if (n == 0) {
+        xv_rx_eof = 1;
+    } else {
+        xv_hold_off = xv_rx_off; xv_hold_len = (long)n;      /* whatever the buffer held before is overwritten */
+        xv_rx_off += (long)n;
+    }
     xv_rcv_ret = (int)n;
     return (int)n;
 }
 
-/* xcm_send: -1 with any errno (EAGAIN, EPIPE, ECONNRESET, EMSGSIZE, ...); messaging: 0 = the whole message was accepted;
- * byte stream: n in 1..len = the first n bytes were accepted.  Accepted data may remain buffered in XCM. */
+/* xcm_send: -1 with any errno (EAGAIN, EPIPE, ECONNRESET, EMSGSIZE, ...) and nothing accepted; messaging: 0 = the whole
+ * message was accepted; byte stream: n in 1..len = the first n bytes were accepted.  Accepted data may remain buffered in XCM. */
 int xcm_send(struct xcm_socket *__restrict conn_socket, const void *__restrict buf, size_t len)
 {
     int i = xv_leg_use(conn_socket);
     __CPROVER_assert(!xv_legs[i].blocking, "xcm_send on a non-blocking socket (the relay must never sleep in XCM)");
     __CPROVER_assert(len == 0 || __CPROVER_r_ok(buf, len), "xcm_send buffer readable");
-    __CPROVER_assert(buf == (const void *)*xv_own_data && len <= XV_RELAY_DATA_MAX, "C20 xcm_send from the xfwd's own buffer");
-    __CPROVER_assume(buf == (const void *)*xv_own_data && len <= XV_RELAY_DATA_MAX);
-    xv_snd_calls++; xv_snd_conn = conn_socket; xv_snd_buf = buf; xv_snd_len = len; xv_snd_c = 0;
-    if (xv_j >= 0 && (size_t)xv_j < len) xv_snd_c = (*xv_own_data)[xv_j];
+    __CPROVER_assert(buf == xv_hold_buf, "C20 xcm_send from the start of the xfwd's own hold buffer");
+    xv_snd_calls++; xv_snd_conn = conn_socket; xv_snd_buf = buf; xv_snd_len = len; xv_snd_off = xv_hold_off;
     if (nondet_bool() || len == 0) {    /* a zero-length send is refused by messaging transports, pointless on streams */
         xv_errno = xv_relay_any_errno();
         xv_snd_errno = xv_errno; xv_snd_ret = -1;
@@ -153,11 +166,14 @@ int xcm_send(struct xcm_socket *__restrict conn_socket, const void *__restrict b
     }
     if (nondet_bool()) xv_legs[i].pending_out = 1;
     if (!xv_bytestream) {
+        __CPROVER_assume(len <= 0x7fffffffUL);
+        xv_tx_off += (long)len;
         xv_snd_ret = 0;
         return 0;
     }
     size_t n = nondet_size_t();
     __CPROVER_assume(n >= 1 && n <= len && n <= 0x7fffffffUL);
+    xv_tx_off += (long)n;
     xv_snd_ret = (int)n;
     return (int)n;
 }
@@ -235,27 +251,21 @@ int xcm_close(struct xcm_socket *socket)
     return 0;
 }
 
-/* ---- TRUSTED(libc) memmove, specialised ---------------------------------------------------------------------------------
+/* ---- TRUSTED(libc) memmove, specialised and content-abstract ---------------------------------------------------------
  * The only memmove of xrelay.c moves the unsent remainder to the front of the hold buffer.  Model for exactly that use
- * (anything else is a failed obligation): both regions lie in the hold buffer, dst is its start.  Over-approximation:
- * the WHOLE buffer becomes arbitrary, except that offset xv_mc (ghost, any value, never assigned) < n receives the byte
- * that was at src + xv_mc.  Real memmove does that for every offset < n and leaves [n, 65535) alone, so each of its
- * behaviours is one of the model's.  (CBMC's own model on a 64 KiB array inside a struct exhausts memory.) */
+ * (anything else is a failed obligation): dst is the start of the hold buffer, src = dst + k inside it, k + n within its
+ * 65535 bytes.  Afterwards the buffer starts with what was at offset k: n valid bytes of the stream from hold_off + k. */
 void *memmove(void *dst, const void *src, size_t n)
 {
-    const char *base = *xv_own_data;
-    __CPROVER_assert(dst == (void *)base && __CPROVER_same_object(src, base), "memmove model: within the xfwd's own buffer, to its start");
-    __CPROVER_assume(dst == (void *)base && __CPROVER_same_object(src, base));
-    size_t k = (size_t)((const char *)src - base);
-    __CPROVER_assert(k <= XV_RELAY_DATA_MAX && n <= XV_RELAY_DATA_MAX - k, "memmove source region readable");
-    __CPROVER_assume(k <= XV_RELAY_DATA_MAX && n <= XV_RELAY_DATA_MAX - k);
-    if (n == 0)
-        return dst;
-    _Bool g = xv_mc < n;
-    char c = 0;
-    if (g) c = (*xv_own_data)[k + xv_mc];
-    __CPROVER_havoc_slice(dst, XV_RELAY_DATA_MAX);
-    if (g) (*xv_own_data)[xv_mc] = c;
+    __CPROVER_assert(dst == xv_hold_buf && __CPROVER_same_object(src, dst), "memmove model: within the xfwd's own hold buffer, to its start");
+    __CPROVER_assume(dst == xv_hold_buf && __CPROVER_same_object(src, dst));
+    __CPROVER_assert(n == 0 || (__CPROVER_r_ok(src, n) && __CPROVER_w_ok(dst, n)), "memmove regions accessible");
+    long k = (const char *)src - (const char *)dst;
+    __CPROVER_assert(k >= 0 && k <= XV_RELAY_DATA_MAX && n <= XV_RELAY_DATA_MAX - (size_t)k, "memmove source region inside the hold buffer");
+    __CPROVER_assume(k >= 0 && k <= XV_RELAY_DATA_MAX && n <= XV_RELAY_DATA_MAX - (size_t)k);
+    __CPROVER_assert((long)n <= xv_hold_len - k || n == 0, "memmove moves valid (received, unsent) bytes only");
+    xv_mm_calls++; xv_mm_n = n;
+    xv_hold_off += k; xv_hold_len = (long)n;
     return dst;
 }
 
